@@ -485,3 +485,176 @@ class Exists_fitness(_Quantifier):
     kind = "exists"
     loops = {0: Loop(0, iter_text="self.search.quantify(tree, scope=scope)", inv=_ex_inv, havoc=_ex_havoc,
                      modifies=("fitness_values", "fitness", "container", "scope", "local_variables"))}
+
+
+# ------------------------------------------------------------------------------------------------ leaves: expression / comparison
+
+CombId = z3.Function("CombId", I, I, I, I, I)        # constraint, tree, scope content, index -> combination
+NCombos = z3.Function("NCombos", I, I, I, I)         # constraint, tree, scope content -> number of combinations
+EvalRaises = z3.Function("EvalRaises", I, I, I, B)   # constraint, expression, combination
+EvalTruthy = z3.Function("EvalTruthy", I, I, I, B)
+CmpRaises = z3.Function("CmpRaises", I, I, B)        # constraint, combination: the comparison operator itself raises
+CmpTrue = z3.Function("CmpTrue", I, I, B)
+AllOkE = z3.Function("AllOkE", I, I, I, I, B)        # constraint, tree, scope content, i: first i combinations are ok
+
+
+def _pair_list(cx, label, annotated: bool):
+    """a combination: abstract tuple of (name, container) pairs"""
+    m = cx.int("n_names", lo=0)
+    l = SList(None, length=m, fresh=False, label=label, kind="tuple")
+
+    def elem(j):
+        c = SObj("AnnotatedContainer" if annotated else "Container", {}, fresh=False, label="container")
+        c.ident = cx.const("container", I)
+        if annotated:
+            c.fields["annotation"] = cx.str("annotation")
+        return (cx.opaque("str", base="name"), c)
+
+    l.elem = elem
+    return l
+
+
+@register
+class GeneticBase_combinations(Contract):
+    """assumed here: the list of combinations is a function of (self, tree, scope); its definition as the cartesian
+    product of the searches' matches is the subject of contracts/search.py"""
+    target = "constraints/base.py:GeneticBase.combinations"
+    trusted = True
+
+    def fresh_result(self, cx, a):
+        me, t, sc = a["self"].ident, a["tree"].ident, dict_id(a.get("scope"))
+        n = cx.int("n_combos", lo=0)
+        cx.assume(to_term_int(n) == NCombos(me, t, sc))
+        l = SList(None, length=n, fresh=True, label="combinations")
+        annotated = a["self"].cls == "ComparisonConstraint"
+
+        def elem(j):
+            comb = _pair_list(cx, f"combination[{idx_term(j)}]", annotated)
+            comb.ghost["ident"] = CombId(me, t, sc, idx_term(j))
+            cx.ghost["cur_combo"] = comb.ghost["ident"]
+            return comb
+
+        l.elem = elem
+        return l
+
+
+@register
+class Constraint_eval(Contract):
+    """assumed: evaluating user Python is a function of (constraint, expression text, combination): it either raises
+    some Exception or returns a value with a truth value"""
+    target = "constraints/constraint.py:Constraint.eval"
+    trusted = True
+
+    def _ids(self, cx, a):
+        e = a["expression"]
+        eid = e.ident if isinstance(e, SOpaque) else z3.IntVal(hash(("s", e)) % (2 ** 31) + 1000)
+        return cx.ghost["self_id"], eid, cx.ghost["cur_combo"]
+
+    def may_raise(self, cx, a):
+        return [("Exception", EvalRaises(*self._ids(cx, a)))]
+
+    def fresh_result(self, cx, a):
+        o = cx.opaque("value")
+        o.truthy = EvalTruthy(*self._ids(cx, a))
+        return o
+
+
+@register
+class Container_get_trees(Contract):
+    """assumed: pure accessor"""
+    target = "language/search.py:Container.get_trees"
+    trusted = True
+
+    def fresh_result(self, cx, a):
+        return cx.opaque_list(cx.int("n_trees", lo=0), fresh=True)
+
+
+def _opaque_trees(cx):
+    l = cx.opaque_list(cx.int("n_ft", lo=0), fresh=True)
+    l.ghost["contains"] = lambda x: cx.bool("in_failing")
+    return l
+
+
+def _leaf_self(cx, cls, **extra):
+    s = constraint_self(cx, cls, **extra)
+    cx.ghost["self_id"] = s.ident
+    return s
+
+
+def _allok_unfold(cx, a, i, ok):
+    me, t = a["self"].ident, a["tree"].ident
+    s0, _ = pre_ids(a)
+    cx.assume(AllOkE(me, t, s0, i + 1) == And(AllOkE(me, t, s0, i), ok))
+
+
+class _ExprLoop:
+    @staticmethod
+    def ok(cx, a, i):
+        me, t = a["self"].ident, a["tree"].ident
+        s0, _ = pre_ids(a)
+        e = a["self"].fields["expression"].ident
+        c = CombId(me, t, s0, i)
+        return And(Not(EvalRaises(me, e, c)), EvalTruthy(me, e, c))
+
+    @staticmethod
+    def havoc(cx, env, i):
+        a = cx.ghost["pre_args"]
+        env["solved"] = cx.int("solved")
+        env["total"] = cx.int("total")
+        env["has_combinations"] = cx.bool("has_combinations")
+        env["failing_trees"] = _opaque_trees(cx)
+        _allok_unfold(cx, a, idx_term(i), _ExprLoop.ok(cx, a, idx_term(i)))
+
+    @staticmethod
+    def inv(cx, env, i):
+        a = cx.ghost["pre_args"]
+        me, t = a["self"].ident, a["tree"].ident
+        s0, _ = pre_ids(a)
+        it = idx_term(i) if not isinstance(i, int) else z3.IntVal(i)
+        solved, total = to_term_int(env["solved"]), to_term_int(env["total"])
+        return [
+            ("total_counts_combinations", total == it),
+            ("solved_in_range", And(solved >= 0, solved <= it)),
+            ("all_solved_iff_all_ok", (solved == it) == AllOkE(me, t, s0, it)),
+            ("has_combinations_flag", T(env["has_combinations"]) == (it > 0)),
+        ]
+
+
+def _trivial_inv(cx, env, i):
+    return []
+
+
+def _havoc_failing(cx, env, i):
+    env["failing_trees"] = _opaque_trees(cx)
+
+
+@register
+class Expression_fitness(FitnessOverride):
+    target = "constraints/expression.py:ExpressionConstraint.fitness"
+    cls = "ExpressionConstraint"
+    loops = {
+        0: Loop(0, iter_text="self.combinations(tree, scope)", inv=_ExprLoop.inv, havoc=_ExprLoop.havoc,
+                modifies=("solved", "total", "has_combinations", "failing_trees", "combination", "local_vars", "result",
+                          "_", "container", "node", "e")),
+        1: Loop(1, iter_text="combination", inv=_trivial_inv, havoc=_havoc_failing,
+                modifies=("failing_trees", "_", "container", "node")),
+        2: Loop(2, iter_text="container.get_trees()", inv=_trivial_inv, havoc=_havoc_failing,
+                modifies=("failing_trees", "node")),
+    }
+
+    def make_self(self, cx):
+        s = _leaf_self(cx, self.cls)
+        s.fields["expression"] = cx.opaque("str", base="expression")
+        return s
+
+    def inputs(self, cx, case):
+        a = super().inputs(cx, case)
+        me, t = a["self"].ident, a["tree"].ident
+        s0, _ = pre_ids(a)
+        cx.assume(AllOkE(me, t, s0, z3.IntVal(0)))
+        return a
+
+    def sem(self, cx, a):
+        me, t = a["self"].ident, a["tree"].ident
+        s0, _ = pre_ids(a)
+        return AllOkE(me, t, s0, NCombos(me, t, s0))
